@@ -16,6 +16,7 @@ from checks.assign_common import (ORACLE_LOG, AssignorHang, StubCluster, enc_out
 
 
 PORT_LINES = []
+HYP_LINES = []
 
 
 def sticky_round(A, parts, members, prev, generation, limit_s=3.0):
@@ -60,16 +61,18 @@ def run(ctx):
     ctx.assumptions += ["clauses (b) and (c) are evaluated only where all members subscribe to the same topics, as the property states",
                         "clause (a) is evaluated on every first-round input (any subscriptions)"]
     ctx.level = "other"
-    ctx.coverage["explanation"] = ("Partial: the sticky algorithm is not modelled in Lean. The three stickiness clauses are Lean "
-                                   "functions with proved soundness lemmas (Props/C15.lean) plus the proved round trip of the "
-                                   "user-data struct; they are evaluated on the real assignor's consecutive results over the "
-                                   "bounded space the property names and random chains.")
+    ctx.coverage["explanation"] = ("Partial: the sticky algorithm is ported to Lean and tied by T-diff on every round; proved: "
+                                   "c15_fixpoint_partial (a complete assignment accepted by the code's own balance test is a fixpoint "
+                                   "of balance()), the soundness lemmas of the three stickiness clauses and the round trip of the "
+                                   "user-data struct. The clauses themselves are evaluated on the real assignor's consecutive results "
+                                   "over the bounded space the property names and random chains.")
     import logging
     logging.disable(logging.CRITICAL)
     proved = ctx.prove(drivers=["akdriver"])
     A = load_assignors(ctx.repo)
     install_oracle_recorder(A)
     PORT_LINES.clear()
+    HYP_LINES.clear()
     rng = ctx.rng("gen")
     firsts = []
     if ctx.replay_cases is not None:
@@ -110,6 +113,7 @@ def run(ctx):
                 # (a) identical second round
                 r2 = sticky_round(A, parts, members, prev, gen)
                 q("unchanged", r1, r2, None, {"clause": "a", "parts": parts, "members": members, "gen": gen})
+                HYP_LINES.append(f"sticky fixpoint-hyp {enc_parts(parts)} {enc_parts(members)} {enc_output(r1)}")
                 n_pairs += 1
                 if identical_subs(members) and len(members) >= 2:
                     ids = [m for m, _ in members]
@@ -216,6 +220,10 @@ def run(ctx):
         i = pmis[0]
         ctx.broken.append({"kind": "correspondence", "tie": "T-diff sticky port (Model/StickyAlg.lean) vs StickyPartitionAssignor.assign",
                            "mismatches": len(pmis), "first": {"op": PORT_LINES[i][0][:400], "impl": PORT_LINES[i][1][:300], "model": pres[i][:300]}})
+    if HYP_LINES:
+        hres = ctx.driver("akdriver", HYP_LINES)
+        ctx.coverage["fixpoint_hypothesis_evaluated"] = len(hres)
+        ctx.coverage["fixpoint_hypothesis_held"] = sum(1 for r in hres if r == "true")
     ctx.coverage["evaluations"] = len(lines)
     ctx.coverage["traces_validated_against_impl"] = len(lines)
     ctx.coverage["rule"] = ("first rounds: slice (quick) / all (thorough) of ≤4 members × ≤3 topics × 0..4 partitions × every "
